@@ -326,6 +326,51 @@ def run_cli_fonts(report, rng):
             return
 
 
+def run_maximum_color_fonts(report, rng):
+    """CBDT added to a vector colour font by the real `maximum_color --bitmaps` (glue_together._copy_cbdt), at the
+    default strike size and at a --bitmap_resolution of the user's (F23): image height, strike ppem, vertical placement"""
+    import io as _io
+
+    from PIL import Image
+
+    from harness import c12
+
+    data, info = c12.nanoemoji_font(rng, "glyf_colr_1", bitmaps=True)
+    inp = c12.load(data)
+    upem, asc, desc = inp["head"].unitsPerEm, inp["OS/2"].sTypoAscender, inp["OS/2"].sTypoDescender
+    for res in (None, 64, 96):
+        flags = ["--bitmaps", "--keep_glyph_names"] + (["--bitmap_resolution", str(res)] if res else [])
+        case = dict(kind="e2e", built_by="python -m nanoemoji.maximum_color " + " ".join(flags), input=info)
+        rc, log, out = c12.run_maximum_color(data, flags)
+        if rc != 0 and ("Bitmap is too big for CBDT" in log or "does not fit in format b for" in log):
+            report.hist("fonts.format", "cbdt via maximum_color: rejected by a CBDT limit")
+            continue
+        if rc != 0 or out is None:
+            i = log.find("FAILED")
+            case["log"] = log[max(0, i) : max(0, i) + 1500]
+            report_failure(report, f"maximum_color_build_{res}", case)
+            return
+        font = c12.load(out)
+        want_h = res or 128
+        probs = []
+        for st_, sd in zip(font["CBLC"].strikes, font["CBDT"].strikeData):
+            ppem = st_.bitmapSizeTable.ppemX
+            for g, rec in sd.items():
+                h = Image.open(_io.BytesIO(bytes(rec.imageData))).size[1]
+                if h != want_h:
+                    probs.append(f"{g}: stored image is {h} px high, the strike was to be {want_h}")
+                if ppem != round(upem * h / (asc - desc)):
+                    probs.append(f"{g}: strike ppem {ppem} != round(upem*height/em) = {round(upem * h / (asc - desc))}")
+                if abs(rec.metrics.BearingY - asc * ppem / upem) > 2.0:
+                    probs.append(f"{g}: CBDT BearingY {rec.metrics.BearingY} px, the ascender at this ppem is {asc * ppem / upem:.1f} px")
+                report.count(("maximum-color-font", res, g), True)
+        report.hist("fonts.format", "cbdt via maximum_color" + (f" --bitmap_resolution {res}" if res else ""))
+        if probs:
+            case["problems"] = probs[:5]
+            report_failure(report, f"maximum_color_font_{res}", case)
+            return
+
+
 def main(argv):
     common.setup_env()
     tier = common.tier_from_args(argv)
@@ -343,6 +388,8 @@ def main(argv):
         run_fonts(report, 8 if tier == "quick" else 160, random.Random(report.seed + 14))
     if not report.violations:
         run_cli_fonts(report, random.Random(report.seed + 15))
+    if not report.violations:
+        run_maximum_color_fonts(report, random.Random(report.seed + 16))
     if not st["proof_ok"] and not report.violations:
         report.violation("proof", dict(kind="proof", theorem="Props/C14.v", detail=report.notes.get("proof_failure")), found_input=False)
     report.open_obligations = [
